@@ -51,6 +51,7 @@ func c17Prog(r *Rng, idx int) *Prog {
 		}
 		if r.Chance(1, 4) {
 			c.ArgCompFn = []string{"dyn-one", "dyn-two"}
+			c.ArgCompFnSplit = len(c.Name)%2 == 1
 		}
 		for _, cc := range c.Cmds {
 			deco(cc)
